@@ -26,6 +26,7 @@ type C15Op struct {
 	P     []string `json:"p,omitempty"`  // prefixes
 	NP    []string `json:"np,omitempty"` // not-prefixes
 	FailN int      `json:"fail_n,omitempty"`
+	N     int      `json:"n,omitempty"` // setlogburst: number of logged updates of A in a row
 }
 
 type C15Plan struct {
@@ -92,6 +93,10 @@ func init() {
 					op = C15Op{Op: "deltxrefs", A: Pick(r, []string{c15tx1, c15tx2})}
 				default:
 					op = C15Op{Op: "reopen"}
+				}
+				if op.Op == "setlog" && r.Chance(0.06) {
+					// a long reflog (readers page through it)
+					op = C15Op{Op: "setlogburst", A: op.A, N: Pick(r, []int{99, 100, 101, 102, 199, 200, 201, 250, r.Range(2, 320)})}
 				}
 				switch op.Op {
 				case "set", "setlog", "del", "rename", "copy":
@@ -278,6 +283,22 @@ func execC15(t *testing.T, raw json.RawMessage, res *Result) {
 			opErr = ref.SaveRef(db, op.A, v, "au", "au@x", "act", msg, nil)
 			model.logs[op.A] = append(model.logs[op.A], c15Log{Old: model.m[op.A], New: v, Action: "act", Msg: msg})
 			model.m[op.A] = v
+		case "setlogburst":
+			mutating = true
+			if op.N < 1 || op.N > 1000 {
+				res.Invalid("burst")
+				return
+			}
+			for k := 0; k < op.N && opErr == nil; k++ {
+				v := newVal()
+				msg := fmt.Sprintf("m%d.%d", ctr, k)
+				opErr = ref.SaveRef(db, op.A, v, "au", "au@x", "act", msg, nil)
+				if opErr == nil {
+					model.logs[op.A] = append(model.logs[op.A], c15Log{Old: model.m[op.A], New: v, Action: "act", Msg: msg})
+					model.m[op.A] = v
+				}
+			}
+			res.probe("long_reflog", 1)
 		case "del":
 			mutating = true
 			opErr = db.Delete(op.A)
